@@ -78,6 +78,15 @@ def gen_cases(ctx):
                     mk("evolve", n, terms, dt / 4, order=order, k=rng.choice([0, 1, 2, 5, 12]))
                     mk("rev", n, terms, dt * 3, order=2)
                     mk("evolve_vs_steps", n, terms, dt, order=order, k=rng.choice([0, 1, 3, 7, 20]))
+    # very fine time steps: one step moves every amplitude by less than any "is it still the same state" tolerance, many steps do not
+    for fam in ("generic", "z_only", "ising_like"):
+        for n in (1, 2, 3):
+            terms = rand_ham(rng, n, fam)
+            if not terms: continue
+            for order in (1, 2):
+                dt = rng.choice([1e-8, -3e-9, 2.5e-10, 1e-12])
+                mk("evolve_vs_steps", n, terms, dt, order=order, k=rng.choice([2, 3, 7, 20]))
+                mk("evolve", n, terms, dt, order=order, k=rng.choice([2, 5, 40]))
     # the order of accuracy needs >= 3 terms with non-commuting outer terms, at two step sizes
     for _ in range(8 * reps):
         n = rng.randrange(2, 5)
